@@ -61,6 +61,7 @@ type simConn struct {
 	closeErr  error
 	stallNext bool
 	halfDead  bool
+	sinceRdl  int // bytes handed to the client since it last set a read deadline
 }
 
 func (c *simConn) String() string { return "c" + itoa(c.id) }
@@ -142,6 +143,9 @@ func (c *simConn) RemoteAddr() net.Addr          { return simAddr{} }
 func (c *simConn) SetDeadline(t time.Time) error { c.rdl, c.wdl = t, t; return nil }
 func (c *simConn) SetReadDeadline(t time.Time) error {
 	c.rdl = t
+	if !t.IsZero() {
+		c.sinceRdl = 0
+	}
 	return nil
 }
 func (c *simConn) SetWriteDeadline(t time.Time) error {
